@@ -1,17 +1,620 @@
 /-
-C14 — Headers the proxy decodes are re-encoded without loss or distortion.
+C14 — Decoded headers are re-encoded without loss or distortion.
+
+"Headers the proxy decodes are re-encoded without loss or distortion: every list element, display
+name, URI component (scheme, user, password, host, port, each URI parameter with or without value,
+URI headers) and every header parameter reappears, in order, with byte-identical values -
+including values containing '%' and tel:/urn: URIs. Decoding extracts exactly the components the
+text denotes (host, port, transport, tag, branch, received, rport)."
+
+Model: Sip.Codec (sip_uri.go, addr_spec.go, absolute_uri.go, name_addr.go, key_value.go,
+generic_param.go, via.go, route.go, record_route.go, from_spec.go, to.go, cseq.go).
+
+Shape of every result. For an ABSTRACT value `x` in an explicit domain `Dom x` (a conjunction of
+"this component does not contain that delimiter" facts, all decidable):
+  (a) `parse (encode x) = some x`         decoding the text of `x` yields exactly the components of
+                                          `x` (nothing lost, nothing invented, order kept); the
+                                          accessor statements are read off from this;
+  (b) `(parse (encode x)).map encode = some (encode x)`   re-encoding is byte-identical.
+No domain predicate restricts '%' or any other byte that is not a delimiter of the production in
+question, and absolute (tel:, urn:, …) URIs are carried as opaque byte strings (`C14_abs_uri`).
+The domains are what the text can denote unambiguously; outside of them the Go code normalises
+(e.g. `x=` is re-encoded as `x`: `C14_kv_bare_equals_dropped`).
 -/
 import Sip.Codec
 import Lemmas.Bytes
+import Lemmas.Num
+import Lemmas.Codec
 open GoStd Sip Lemmas
 
 namespace Props.C14
 
-/-- A key/value with a non-empty value and no '=' in the key survives encode/decode. -/
-theorem kv_roundtrip_valued (k v : Bytes) (hk : (61 : UInt8) ∉ k) (hv : v ≠ []) :
-    parseKV (KeyValue.encode { key := k, value := v }) = { key := k, value := v } := by
-  have hlen : v.length > 0 := by cases v <;> simp_all
-  simp only [KeyValue.encode, hlen, ↓reduceIte, parseKV, List.append_assoc, List.singleton_append,
-    cut_append_of_not_mem 61 k v hk]
+/-! ## 1. parameters -/
+
+/-- One `key[=value]` parameter. Only the key is restricted ('=' would end it). The value may be
+empty (flag parameter) and may contain any byte, '=' and '%' included. -/
+theorem C14_kv_decode_encode (kv : KeyValue) (hk : (61 : UInt8) ∉ kv.key) :
+    parseKV kv.encode = kv := parseKV_encode kv hk
+
+theorem C14_kv_reencode (kv : KeyValue) (hk : (61 : UInt8) ∉ kv.key) :
+    (parseKV kv.encode).encode = kv.encode := by rw [parseKV_encode kv hk]
+
+/-- non-vacuity: `lr` (flag) and `maddr=%41=b` (value with '%' and '='). -/
+example : parseKV (KeyValue.encode { key := [108, 114], value := [] }) = { key := [108, 114], value := [] } ∧
+    parseKV (KeyValue.encode { key := [109], value := [37, 52, 49, 61, 98] })
+      = { key := [109], value := [37, 52, 49, 61, 98] } := by decide
+
+/-- Arbitrary input: what was decoded is stable under encode/decode (no drift on repeated
+forwarding). -/
+theorem C14_kv_stable (s : Bytes) : parseKV (parseKV s).encode = parseKV s := parseKV_encode_parseKV s
+
+/-- Arbitrary input: a parameter is re-encoded byte-identically, except that a bare trailing '='
+(`k=`, empty value) is dropped. -/
+theorem C14_kv_reencode_any (s : Bytes) :
+    (parseKV s).encode = s ∨ ∃ k, (61 : UInt8) ∉ k ∧ s = k ++ [61] ∧ (parseKV s).encode = k :=
+  encode_parseKV s
+
+/-- The exception is real: "a=" is re-encoded as "a". -/
+theorem C14_kv_bare_equals_dropped : (parseKV [97, 61]).encode = [97] := by decide
+
+/-- Domain of a ';'-separated parameter: the key contains neither '=' nor ';', the value no ';'. -/
+def ParamOK (p : KeyValue) : Prop := (61 : UInt8) ∉ p.key ∧ (59 : UInt8) ∉ p.key ∧ (59 : UInt8) ∉ p.value
+
+instance (p : KeyValue) : Decidable (ParamOK p) := by unfold ParamOK; infer_instance
+
+theorem ParamOK.no_semi {p : KeyValue} (h : ParamOK p) : (59 : UInt8) ∉ p.encode :=
+  not_mem_kv_encode (by decide) h.2.1 h.2.2
+
+/-- URI parameters: the text after the first ';' decodes to exactly the list, in order. -/
+theorem C14_uri_params (ps : List KeyValue) (hne : ps ≠ []) (h : ∀ p ∈ ps, ParamOK p) :
+    parseUriParameters ((encodeUriParams ps).drop 1) = ps := by
+  rw [encodeUriParams_eq_join ps hne, List.drop_succ_cons, List.drop_zero, parseUriParameters,
+    split_join 59 _ (by simpa using hne)]
+  · exact map_parseKV_encode ps (fun p hp => (h p hp).1)
+  · intro x hx
+    simp only [List.mem_map] at hx
+    obtain ⟨p, hp, rfl⟩ := hx
+    exact (h p hp).no_semi
+
+theorem C14_uri_params_reencode (ps : List KeyValue) (hne : ps ≠ []) (h : ∀ p ∈ ps, ParamOK p) :
+    encodeUriParams (parseUriParameters ((encodeUriParams ps).drop 1)) = encodeUriParams ps := by
+  rw [C14_uri_params ps hne h]
+
+/-- ARBITRARY input `s` (no domain at all): the decoded parameter list is a fixed point of
+encode-then-decode, so repeated forwarding cannot drift. -/
+theorem C14_uri_params_stable (s : Bytes) :
+    parseUriParameters (join [59] ((parseUriParameters s).map KeyValue.encode)) = parseUriParameters s :=
+  parseUriParameters_stable s
+
+/-- Via-style parameters (`parseKV` on every piece; empty keys allowed). -/
+theorem C14_semi_params_kv (ps : List KeyValue) (hne : ps ≠ []) (h : ∀ p ∈ ps, ParamOK p) :
+    (split 59 ((encodeSemiParams ps).drop 1)).map parseKV = ps := by
+  have := C14_uri_params ps hne h
+  rwa [encodeUriParams_eq_semi] at this
+
+/-- Generic header parameters (`ParseGenericParam` rejects the empty piece, so keys are non-empty). -/
+theorem C14_semi_params_generic (ps : List KeyValue) (hne : ps ≠ [])
+    (h : ∀ p ∈ ps, ParamOK p ∧ p.key ≠ []) :
+    mapM? parseGenericParam (split 59 ((encodeSemiParams ps).drop 1)) = some ps := by
+  rw [encodeSemiParams_eq_join ps hne, List.drop_succ_cons, List.drop_zero,
+    split_join 59 _ (by simpa using hne)]
+  · exact mapM?_map _ _ ps (fun p hp => parseGenericParam_encode p (h p hp).1.1 (h p hp).2)
+  · intro x hx
+    simp only [List.mem_map] at hx
+    obtain ⟨p, hp, rfl⟩ := hx
+    exact (h p hp).1.no_semi
+
+/-- non-vacuity: `;t=tcp;lr` as a two-element list (second element without value). -/
+def exampleParams : List KeyValue := [⟨[116], [116, 99, 112]⟩, ⟨[108, 114], []⟩]
+
+example : ∀ p ∈ exampleParams, ParamOK p ∧ p.key ≠ [] := by decide
+example : encodeUriParams exampleParams = [59, 116, 61, 116, 99, 112, 59, 108, 114] := by decide
+example : parseUriParameters ((encodeUriParams exampleParams).drop 1) = exampleParams :=
+  C14_uri_params exampleParams (by decide) (by decide)
+example : mapM? parseGenericParam (split 59 ((encodeSemiParams exampleParams).drop 1)) = some exampleParams :=
+  C14_semi_params_generic exampleParams (by decide) (by decide)
+
+/-! ## 2. SIP URI, addr-spec -/
+
+/-- Domain of a sip:/sips: URI value. `NoneOf cs s`: `s` contains none of the bytes `cs`
+('@' 64, ':' 58, ';' 59, '?' 63, '=' 61, '&' 38). No component is otherwise restricted ('%', '+',
+'-', '.', … are all fine, the host may even be empty). A password requires a user (`_Write` prints
+user-info only when the user is non-empty). Port 0 means "absent". Note that ':' ∉ host excludes
+IPv6 references such as `[2001:db8::1]`: `parseHostPort` cuts at the FIRST ':' (see the last
+section for what happens to them). -/
+structure UriDom (u : SIPURI) : Prop where
+  scheme : u.scheme = str "sip" ∨ u.scheme = str "sips"
+  user : NoneOf [64, 58, 59, 63] u.user
+  password : NoneOf [64, 59, 63] u.password
+  pw_user : u.password ≠ [] → u.user ≠ []
+  host : NoneOf [64, 58, 59, 63] u.host
+  port : 0 ≤ u.port ∧ u.port ≤ 65535
+  params : ∀ p ∈ u.params, ParamOK p ∧ (63 : UInt8) ∉ p.key ∧ (63 : UInt8) ∉ p.value
+  headers : ∀ h ∈ u.headers, NoneOf [61, 38] h.key ∧ (38 : UInt8) ∉ h.value
+
+/-- Decoding the text of a SIP URI yields exactly its components: scheme, user, password, host,
+port, every parameter (with or without value) and every header, in order, byte-identical. -/
+theorem C14_sip_uri (u : SIPURI) (h : UriDom u) : parseSipURI u.encode = some u := by
+  have e := sipuri_encode_eq u
+  obtain ⟨hsc, hus, hpw, hpu, hho, ⟨hp0, hp1⟩, hps, hhd⟩ := h
+  obtain ⟨sc, us, pw, ho, po, ps, hd⟩ := u
+  simp only at e hsc hus hpw hpu hho hp0 hp1 hps hhd
+  have h59 : (59 : UInt8) ∉ userInfoText us pw ++ hostPortText ho po := by
+    simp only [List.mem_append, not_or]
+    exact ⟨not_mem_userInfoText 59 (hus.get 59) (hpw.get 59) (by decide) (by decide),
+      not_mem_hostPortText hp0 59 (hho.get 59) (by decide) (by decide)⟩
+  have h63 : (63 : UInt8) ∉ (userInfoText us pw ++ hostPortText ho po) ++ encodeSemiParams ps := by
+    simp only [List.mem_append, not_or]
+    exact ⟨⟨not_mem_userInfoText 63 (hus.get 63) (hpw.get 63) (by decide) (by decide),
+      not_mem_hostPortText hp0 63 (hho.get 63) (by decide) (by decide)⟩,
+      not_mem_encodeSemiParams (by decide) (by decide) (fun p hp => (hps p hp).2)⟩
+  have steps : ∀ scheme, uriSteps scheme (((userInfoText us pw ++ hostPortText ho po)
+      ++ encodeSemiParams ps) ++ encodeUriHeaders true hd)
+      = { scheme := scheme, user := us, password := pw, host := ho, port := po, params := ps,
+          headers := hd } := by
+    intro scheme
+    unfold uriSteps
+    rw [uriSplitHeaders_text _ hd h63
+        (fun x hx => ⟨(hhd x hx).1.get 61, (hhd x hx).1.get 38, (hhd x hx).2⟩)]
+    simp only
+    rw [uriSplitParams_text _ ps h59 (fun p hp => ⟨(hps p hp).1.1, (hps p hp).1.no_semi⟩)]
+    simp only
+    exact uriCore_text scheme us pw ho po ps hd (hus.get 64) (hus.get 58) (hpw.get 64) hpu
+      (hho.get 64) (hho.get 58) hp0 (by omega)
+  rcases hsc with hsc | hsc <;> subst hsc
+  · rw [e, parseSipURI_sip, steps]
+  · rw [e, parseSipURI_sips, steps]
+
+/-- Re-encoding a decoded SIP URI is byte-identical. -/
+theorem C14_sip_uri_reencode (u : SIPURI) (h : UriDom u) :
+    (parseSipURI u.encode).map SIPURI.encode = some u.encode := by rw [C14_sip_uri u h]; rfl
+
+/-- non-vacuity: `sips:alice:p%40w@example.com:5070;transport=tls;lr?subject=a%20b&x=` -/
+def exampleUri : SIPURI :=
+  { scheme := str "sips", user := str "alice", password := str "p%40w", host := str "example.com",
+    port := 5070, params := [⟨str "transport", str "tls"⟩, ⟨str "lr", []⟩],
+    headers := [⟨str "subject", str "a%20b"⟩, ⟨str "x", []⟩] }
+
+example : UriDom exampleUri := by constructor <;> decide +kernel
+example : exampleUri.encode = str "sips:alice:p%40w@example.com:5070;transport=tls;lr?subject=a%20b&x=" := by
+  decide +kernel
+example : parseSipURI (str "sips:alice:p%40w@example.com:5070;transport=tls;lr?subject=a%20b&x=")
+    = some exampleUri := by decide +kernel
+
+/-! ### what the accessors return -/
+
+/-- `transport`: the value of the first `transport` parameter … -/
+theorem C14_uri_transport_explicit (u : SIPURI) (pre post : List KeyValue) (v : Bytes)
+    (hp : u.params = pre ++ { key := str "transport", value := v } :: post)
+    (hpre : ∀ q ∈ pre, q.key ≠ str "transport") : u.getTransport = v := by
+  simp [SIPURI.getTransport, hp, getParam_first pre post _ v hpre]
+
+/-- … and `udp` when there is none. -/
+theorem C14_uri_transport_default (u : SIPURI) (h : ∀ q ∈ u.params, q.key ≠ str "transport") :
+    u.getTransport = str "udp" := by
+  simp [SIPURI.getTransport, getParam_none u.params _ h]
+
+/-- `port`: the number written after the host … -/
+theorem C14_uri_port_explicit (u : SIPURI) (h : u.port ≠ 0) : u.getPort = u.port := by
+  simp [SIPURI.getPort, h]
+
+/-- … and the transport's default when none is written. -/
+theorem C14_uri_port_default (u : SIPURI) (h : u.port = 0) :
+    u.getPort = if u.getTransport = str "tls" then 5061 else 5060 := by
+  simp [SIPURI.getPort, h]
+
+/-- Decoding extracts exactly the components the text denotes: host, port, effective port and
+transport of the decoded URI are those of the value whose text it is. -/
+theorem C14_sip_uri_extracts (u : SIPURI) (h : UriDom u) :
+    ∃ d, parseSipURI u.encode = some d ∧ d.scheme = u.scheme ∧ d.user = u.user ∧
+      d.password = u.password ∧ d.host = u.host ∧ d.port = u.port ∧ d.params = u.params ∧
+      d.headers = u.headers ∧ d.getPort = u.getPort ∧ d.getTransport = u.getTransport :=
+  ⟨u, C14_sip_uri u h, rfl, rfl, rfl, rfl, rfl, rfl, rfl, rfl, rfl⟩
+
+example : (parseSipURI (str "sip:bob@h.example;transport=tls")).map
+    (fun d => (d.host, d.port, d.getPort, d.getTransport)) = some (str "h.example", 0, 5061, str "tls") := by
+  decide +kernel
+example : (parseSipURI (str "sip:bob@h.example:5080;lr")).map
+    (fun d => (d.host, d.port, d.getPort, d.getTransport)) = some (str "h.example", 5080, 5080, str "udp") := by
+  decide +kernel
+
+/-- non-vacuity of the four accessor statements (`exampleUri` has `;transport=tls` and port 5070,
+`exampleUri1` has neither) -/
+def exampleUri1 : SIPURI := { scheme := str "sip", host := str "p1.example.com", params := [⟨str "lr", []⟩] }
+
+example : exampleUri.getTransport = str "tls" :=
+  C14_uri_transport_explicit exampleUri [] [⟨str "lr", []⟩] (str "tls") rfl (by simp)
+example : exampleUri1.getTransport = str "udp" :=
+  C14_uri_transport_default exampleUri1 (by decide +kernel)
+example : exampleUri.getPort = 5070 := C14_uri_port_explicit exampleUri (by decide)
+example : exampleUri1.getPort = if exampleUri1.getTransport = str "tls" then 5061 else 5060 :=
+  C14_uri_port_default exampleUri1 rfl
+example : UriDom exampleUri1 := by constructor <;> decide +kernel
+
+/-! ### addr-spec: SIP URI or opaque absolute URI -/
+
+/-- Anything that does not start with `sip:` / `sips:` is an absolute URI and is carried verbatim:
+ANY bytes, '%' escapes, tel: and urn: included. -/
+theorem C14_abs_uri (s : Bytes) (h1 : hasPrefix sipPrefix s = false) (h2 : hasPrefix sipsPrefix s = false) :
+    parseAddrSpec s = some (AddrSpec.abs s) ∧ (AddrSpec.abs s).encode = s := by
+  simp [parseAddrSpec, h1, h2, AddrSpec.encode]
+
+theorem C14_abs_uri_reencode (s : Bytes) (h1 : hasPrefix sipPrefix s = false)
+    (h2 : hasPrefix sipsPrefix s = false) : (parseAddrSpec s).map AddrSpec.encode = some s := by
+  rw [(C14_abs_uri s h1 h2).1]; rfl
+
+/-- non-vacuity: `tel:+1-201-555-0123;phone-context=%2B1` and `urn:service:sos.fire` -/
+example : hasPrefix sipPrefix (str "tel:+1-201-555-0123;phone-context=%2B1") = false ∧
+    hasPrefix sipsPrefix (str "tel:+1-201-555-0123;phone-context=%2B1") = false ∧
+    hasPrefix sipPrefix (str "urn:service:sos.fire") = false ∧
+    hasPrefix sipsPrefix (str "urn:service:sos.fire") = false := by decide +kernel
+
+def AddrDom : AddrSpec → Prop
+  | .sip u => UriDom u
+  | .abs s => hasPrefix sipPrefix s = false ∧ hasPrefix sipsPrefix s = false
+
+theorem sip_uri_has_prefix (u : SIPURI) (h : UriDom u) :
+    (hasPrefix sipPrefix u.encode || hasPrefix sipsPrefix u.encode) = true := by
+  rw [sipuri_encode_eq]
+  rcases h.scheme with hs | hs <;> rw [hs]
+  · simp [hasPrefix_sip]
+  · simp [hasPrefix_sips]
+
+theorem C14_addr_spec (a : AddrSpec) (h : AddrDom a) : parseAddrSpec a.encode = some a := by
+  cases a with
+  | sip u =>
+    have hu : UriDom u := h
+    simp only [AddrSpec.encode, parseAddrSpec, sip_uri_has_prefix u hu, ↓reduceIte, C14_sip_uri u hu,
+      Option.map_some]
+  | abs s => exact (C14_abs_uri s h.1 h.2).1
+
+theorem C14_addr_spec_reencode (a : AddrSpec) (h : AddrDom a) :
+    (parseAddrSpec a.encode).map AddrSpec.encode = some a.encode := by rw [C14_addr_spec a h]; rfl
+
+/-! ## 3. name-addr -/
+
+/-- Domain of `display<addr>`: no angle bracket in the display name, none closing inside the URI
+text (for a SIP URI `not_mem_sipuri_encode` reduces this to "no '>' in any component"). The
+display name is otherwise arbitrary (quotes, blanks, UTF-8, empty). -/
+structure NameAddrDom (na : NameAddr) : Prop where
+  display : NoneOf [60, 62] na.display
+  addr : AddrDom na.addr
+  addr_text : (62 : UInt8) ∉ na.addr.encode
+
+theorem C14_name_addr (na : NameAddr) (h : NameAddrDom na) : parseNameAddr na.encode = some na := by
+  unfold NameAddr.encode
+  rw [parseNameAddr_text na.display na.addr.encode (h.display.get 60) (h.display.get 62) h.addr_text,
+    C14_addr_spec na.addr h.addr]
+  rfl
+
+theorem C14_name_addr_reencode (na : NameAddr) (h : NameAddrDom na) :
+    (parseNameAddr na.encode).map NameAddr.encode = some na.encode := by rw [C14_name_addr na h]; rfl
+
+/-- '>' occurs in the text of a SIP URI only if it occurs in a component. -/
+theorem uri_text_no_gt (u : SIPURI) (h : UriDom u) (hus : (62 : UInt8) ∉ u.user)
+    (hpw : (62 : UInt8) ∉ u.password) (hho : (62 : UInt8) ∉ u.host)
+    (hps : ∀ p ∈ u.params, (62 : UInt8) ∉ p.key ∧ (62 : UInt8) ∉ p.value)
+    (hhs : ∀ x ∈ u.headers, (62 : UInt8) ∉ x.key ∧ (62 : UInt8) ∉ x.value) :
+    (62 : UInt8) ∉ u.encode := by
+  refine not_mem_sipuri_encode u 62 h.port.1 (by decide) (by decide) ?_ hus hpw hho hps hhs
+  rcases h.scheme with hs | hs <;> rw [hs] <;> decide +kernel
+
+example : (62 : UInt8) ∉ exampleUri.encode :=
+  uri_text_no_gt exampleUri (by constructor <;> decide +kernel) (by decide +kernel) (by decide +kernel)
+    (by decide +kernel) (by decide +kernel) (by decide +kernel)
+
+/-- non-vacuity: `"Alice %22A%22" <sips:alice:p%40w@example.com:5070;transport=tls;lr?subject=a%20b&x=>`
+and `<tel:+1-201-555-0123>` -/
+example : NameAddrDom { display := str "\"Alice %22A%22\" ", addr := .sip exampleUri } := by
+  constructor
+  · decide +kernel
+  · exact (by constructor <;> decide +kernel : UriDom exampleUri)
+  · decide +kernel
+example : NameAddrDom { display := [], addr := .abs (str "tel:+1-201-555-0123") } := by
+  constructor
+  · decide
+  · show hasPrefix sipPrefix _ = false ∧ hasPrefix sipsPrefix _ = false
+    decide +kernel
+  · decide +kernel
+
+/-! ## 4. Via -/
+
+/-- Domain of one Via element `name/version/transport host[:port];params`.
+`Plain s`: no Go white-space rune starts inside `s` (no ASCII blank, none of the lead bytes
+C2 E1 E2 E3; every ASCII non-blank string is plain: `plain_of_ascii`), because `strings.Fields`
+separates sent-protocol from sent-by. Delimiters: '/' 47, ';' 59, ':' 58. The sent-by host must be
+non-empty (otherwise there is no second field when the port is absent). Parameters as everywhere
+(`ParamOK`); keys may even be empty. -/
+structure ViaDom (vp : ViaParam) : Prop where
+  protoName : Plain vp.protoName ∧ NoneOf [47, 59] vp.protoName
+  protoVersion : Plain vp.protoVersion ∧ NoneOf [47, 59] vp.protoVersion
+  transport : Plain vp.transport ∧ NoneOf [47, 59] vp.transport
+  host : vp.host ≠ [] ∧ Plain vp.host ∧ NoneOf [58, 59] vp.host
+  port : 0 ≤ vp.port ∧ vp.port ≤ 65535
+  params : ∀ p ∈ vp.params, ParamOK p
+
+/-- Decoding the text of a Via element yields exactly protocol name, version, transport, host,
+port and every parameter (with or without value), in order. -/
+theorem C14_via_param (vp : ViaParam) (h : ViaDom vp) : parseViaParam vp.encode = some vp := by
+  have e := viaparam_encode_eq vp
+  obtain ⟨⟨hpn, hpn'⟩, ⟨hpv, hpv'⟩, ⟨htr, htr'⟩, ⟨hne, hho, hho'⟩, ⟨hp0, hp1⟩, hps⟩ := h
+  obtain ⟨pn, pv, tr, ho, po, ps⟩ := vp
+  simp only at e hpn hpn' hpv hpv' htr htr' hne hho hho' hp0 hp1 hps
+  have hsp : Plain (pn ++ 47 :: (pv ++ 47 :: tr)) :=
+    hpn.append ((by decide : Plain [47]).append (hpv.append ((by decide : Plain [47]).append htr)))
+  have hhp : Plain (hostPortText ho po) := plain_hostPortText hho hp0
+  have h59 : (59 : UInt8) ∉ (pn ++ 47 :: (pv ++ 47 :: tr)) ++ [32] ++ hostPortText ho po := by
+    simp only [List.mem_append, List.mem_cons, List.not_mem_nil, or_false, not_or]
+    exact ⟨⟨⟨hpn'.get 59, by decide, hpv'.get 59, by decide, htr'.get 59⟩, by decide⟩,
+      not_mem_hostPortText hp0 59 (hho'.get 59) (by decide) (by decide)⟩
+  have hsplit := split_semi _ ps h59 (fun p hp => (hps p hp).no_semi)
+  have hf := fields_two _ _ hsp hhp (by simp) (hostPortText_ne_nil hne)
+  have h47 := split_slash3 pn pv tr (hpn'.get 47) (hpv'.get 47) (htr'.get 47)
+  have h58 := split_hostPortText ho po (hho'.get 58) hp0
+  have hkv := map_parseKV_encode ps (fun p hp => (hps p hp).1)
+  unfold parseViaParam
+  rw [e, hsplit]
+  simp only [hf, h47, h58, hkv]
+  by_cases h0 : po = 0
+  · simp [h0]
+  · simp [h0, atoi_itoa hp0 (by omega : po ≤ 9223372036854775807)]
+
+theorem C14_via_param_reencode (vp : ViaParam) (h : ViaDom vp) :
+    (parseViaParam vp.encode).map ViaParam.encode = some vp.encode := by rw [C14_via_param vp h]; rfl
+
+/-- `branch` / `received` / `rport` (any name): the value of the FIRST parameter with that key …
+(an `rport` flag without value yields the empty value). -/
+theorem C14_via_get_param (vp : ViaParam) (pre post : List KeyValue) (name v : Bytes)
+    (hp : vp.params = pre ++ { key := name, value := v } :: post) (hpre : ∀ q ∈ pre, q.key ≠ name) :
+    getParam vp.params name = some v := by rw [hp]; exact getParam_first pre post name v hpre
+
+/-- … and nothing when no parameter has that key. -/
+theorem C14_via_get_param_absent (vp : ViaParam) (name : Bytes) (h : ∀ q ∈ vp.params, q.key ≠ name) :
+    getParam vp.params name = none := getParam_none vp.params name h
+
+theorem C14_via_port_explicit (vp : ViaParam) (h : vp.port ≠ 0) : vp.getPort = vp.port := by
+  simp [ViaParam.getPort, h]
+
+theorem C14_via_port_default (vp : ViaParam) (h : vp.port = 0) :
+    vp.getPort = if vp.transport = str "TLS" then 5061 else 5060 := by
+  simp [ViaParam.getPort, h]
+
+/-- Decoding extracts exactly what the text denotes: transport, host, port, effective port and the
+`branch`, `received`, `rport` parameters of the decoded element are those of the value. -/
+theorem C14_via_extracts (vp : ViaParam) (h : ViaDom vp) :
+    ∃ d, parseViaParam vp.encode = some d ∧ d.protoName = vp.protoName ∧
+      d.protoVersion = vp.protoVersion ∧ d.transport = vp.transport ∧ d.host = vp.host ∧
+      d.port = vp.port ∧ d.getPort = vp.getPort ∧ d.params = vp.params ∧
+      getParam d.params (str "branch") = getParam vp.params (str "branch") ∧
+      getParam d.params (str "received") = getParam vp.params (str "received") ∧
+      getParam d.params (str "rport") = getParam vp.params (str "rport") :=
+  ⟨vp, C14_via_param vp h, rfl, rfl, rfl, rfl, rfl, rfl, rfl, rfl, rfl, rfl⟩
+
+/-- non-vacuity: `SIP/2.0/TLS proxy.example.com:5071;branch=z9hG4bK%7e1;received=192.0.2.1;rport` -/
+def exampleVia : ViaParam :=
+  { protoName := str "SIP", protoVersion := str "2.0", transport := str "TLS",
+    host := str "proxy.example.com", port := 5071,
+    params := [⟨str "branch", str "z9hG4bK%7e1"⟩, ⟨str "received", str "192.0.2.1"⟩, ⟨str "rport", []⟩] }
+
+example : ViaDom exampleVia := by constructor <;> decide +kernel
+example : parseViaParam (str "SIP/2.0/TLS proxy.example.com:5071;branch=z9hG4bK%7e1;received=192.0.2.1;rport")
+    = some exampleVia := by decide +kernel
+example : (parseViaParam (str "SIP/2.0/TLS h.example;rport=5555;branch=a;branch=b")).map
+    (fun d => (d.host, d.port, d.getPort)) = some (str "h.example", 0, 5061) := by decide +kernel
+example : (parseViaParam (str "SIP/2.0/TLS h.example;rport=5555;branch=a;branch=b")).map
+    (fun d => (getParam d.params (str "branch"), getParam d.params (str "rport"),
+      getParam d.params (str "received"))) = some (some (str "a"), some (str "5555"), none) := by
+  decide +kernel
+
+example : getParam exampleVia.params (str "received") = some (str "192.0.2.1") :=
+  C14_via_get_param exampleVia [⟨str "branch", str "z9hG4bK%7e1"⟩] [⟨str "rport", []⟩] (str "received")
+    (str "192.0.2.1") rfl (by decide +kernel)
+example : getParam exampleVia.params (str "maddr") = none :=
+  C14_via_get_param_absent exampleVia (str "maddr") (by decide +kernel)
+example : exampleVia.getPort = 5071 := C14_via_port_explicit exampleVia (by decide)
+example : ({ exampleVia with port := 0 } : ViaParam).getPort = 5061 := by
+  rw [C14_via_port_default _ rfl]; decide +kernel
+
+/-- An element of a comma-separated Via list must in addition be free of ',' (44). -/
+structure ViaElemDom (vp : ViaParam) : Prop where
+  dom : ViaDom vp
+  no_comma : (44 : UInt8) ∉ vp.protoName ∧ (44 : UInt8) ∉ vp.protoVersion ∧ (44 : UInt8) ∉ vp.transport ∧
+    (44 : UInt8) ∉ vp.host ∧ ∀ p ∈ vp.params, (44 : UInt8) ∉ p.key ∧ (44 : UInt8) ∉ p.value
+
+theorem ViaElemDom.text_no_comma {vp : ViaParam} (h : ViaElemDom vp) : (44 : UInt8) ∉ vp.encode :=
+  not_mem_viaparam_encode vp 44 h.dom.port.1 (by decide) (by decide) h.no_comma.1 h.no_comma.2.1
+    h.no_comma.2.2.1 h.no_comma.2.2.2.1 h.no_comma.2.2.2.2
+
+/-- A Via header value with several elements: every element reappears, in order. -/
+theorem C14_via_list (vs : List ViaParam) (hne : vs ≠ []) (h : ∀ v ∈ vs, ViaElemDom v) :
+    parseVia (encodeVia vs) = some vs :=
+  commaList_roundtrip parseViaParam ViaParam.encode vs hne
+    (fun v hv => ⟨(h v hv).text_no_comma, C14_via_param v (h v hv).dom⟩)
+
+theorem C14_via_list_reencode (vs : List ViaParam) (hne : vs ≠ []) (h : ∀ v ∈ vs, ViaElemDom v) :
+    (parseVia (encodeVia vs)).map encodeVia = some (encodeVia vs) := by
+  rw [C14_via_list vs hne h]; rfl
+
+example : ViaElemDom exampleVia := ⟨by constructor <;> decide +kernel, by decide +kernel⟩
+example : parseVia (str "SIP/2.0/UDP a.example;branch=1,SIP/2.0/TCP b.example:5070;branch=2;rport")
+    = some [⟨str "SIP", str "2.0", str "UDP", str "a.example", 0, [⟨str "branch", str "1"⟩]⟩,
+            ⟨str "SIP", str "2.0", str "TCP", str "b.example", 5070, [⟨str "branch", str "2"⟩, ⟨str "rport", []⟩]⟩] := by
+  decide +kernel
+
+/-! ## 5. Route / Record-Route, From / To, CSeq -/
+
+/-- Domain of a generic header parameter (`;tag=…`, `;lr`): as `ParamOK`, and the key is non-empty
+(`ParseGenericParam` rejects the empty piece). -/
+def GenParamOK (p : KeyValue) : Prop := ParamOK p ∧ p.key ≠ []
+
+instance (p : KeyValue) : Decidable (GenParamOK p) := by unfold GenParamOK; infer_instance
+
+theorem GenParamOK.lemma_form {ps : List KeyValue} (h : ∀ p ∈ ps, GenParamOK p) :
+    ∀ x ∈ ps, (61 : UInt8) ∉ x.key ∧ x.key ≠ [] ∧ (59 : UInt8) ∉ x.encode :=
+  fun x hx => ⟨(h x hx).1.1, (h x hx).2, (h x hx).1.no_semi⟩
+
+/-- Domain of one Route / Record-Route element `display<uri>;params`. `parseRouteParam` trims
+white space around the parameter text, so the text of the LAST parameter must not end in a
+white-space rune (`EndsClean`; any ASCII non-blank last byte will do: `noSpaceEnd_of_ascii`). -/
+structure RouteDom (r : RouteParam) : Prop where
+  nameAddr : NameAddrDom r.nameAddr
+  params : ∀ p ∈ r.params, GenParamOK p
+  tail : ∀ p, r.params.getLast? = some p → EndsClean p.encode
+
+theorem C14_route_param (r : RouteParam) (h : RouteDom r) : parseRouteParam r.encode = some r := by
+  unfold RouteParam.encode
+  exact parseRouteParam_text r.nameAddr r.params (C14_name_addr _ h.nameAddr)
+    (h.nameAddr.display.get 62) h.nameAddr.addr_text (GenParamOK.lemma_form h.params) h.tail
+
+theorem C14_route_param_reencode (r : RouteParam) (h : RouteDom r) :
+    (parseRouteParam r.encode).map RouteParam.encode = some r.encode := by
+  rw [C14_route_param r h]; rfl
+
+/-- An element of a comma-separated Route list must in addition be free of ',' (44); for the URI
+this is stated on its text (`not_mem_sipuri_encode` reduces it to the components). -/
+structure RouteElemDom (r : RouteParam) : Prop where
+  dom : RouteDom r
+  no_comma : (44 : UInt8) ∉ r.nameAddr.display ∧ (44 : UInt8) ∉ r.nameAddr.addr.encode ∧
+    ∀ p ∈ r.params, (44 : UInt8) ∉ p.key ∧ (44 : UInt8) ∉ p.value
+
+theorem RouteElemDom.text_no_comma {r : RouteParam} (h : RouteElemDom r) : (44 : UInt8) ∉ r.encode := by
+  simp only [RouteParam.encode, List.mem_append, not_or]
+  exact ⟨not_mem_nameaddr_encode _ 44 (by decide) (by decide) h.no_comma.1 h.no_comma.2.1,
+    not_mem_encodeSemiParams (by decide) (by decide) h.no_comma.2.2⟩
+
+/-- A Route / Record-Route header value: every element reappears, in order. -/
+theorem C14_route_list (rs : List RouteParam) (hne : rs ≠ []) (h : ∀ r ∈ rs, RouteElemDom r) :
+    parseRoute (encodeRoute rs) = some rs :=
+  commaList_roundtrip parseRouteParam RouteParam.encode rs hne
+    (fun r hr => ⟨(h r hr).text_no_comma, C14_route_param r (h r hr).dom⟩)
+
+theorem C14_route_list_reencode (rs : List RouteParam) (hne : rs ≠ []) (h : ∀ r ∈ rs, RouteElemDom r) :
+    (parseRoute (encodeRoute rs)).map encodeRoute = some (encodeRoute rs) := by
+  rw [C14_route_list rs hne h]; rfl
+
+/-- non-vacuity: `<sip:p1.example.com;lr>,<sips:alice:p%40w@example.com:5070;transport=tls;lr?subject=a%20b&x=>;x=%20y` -/
+def exampleRoute1 : RouteParam :=
+  { nameAddr := { display := [], addr := .sip exampleUri1 }, params := [] }
+def exampleRoute2 : RouteParam :=
+  { nameAddr := { display := [], addr := .sip exampleUri }, params := [⟨str "x", str "%20y"⟩] }
+
+example : RouteElemDom exampleRoute1 := by
+  refine ⟨⟨⟨by decide, ?_, by decide +kernel⟩, by decide, by decide⟩, by decide +kernel⟩
+  exact (by constructor <;> decide +kernel : UriDom exampleUri1)
+example : RouteElemDom exampleRoute2 := by
+  refine ⟨⟨⟨by decide, ?_, by decide +kernel⟩, by decide +kernel, by decide +kernel⟩, by decide +kernel⟩
+  exact (by constructor <;> decide +kernel : UriDom exampleUri)
+example : parseRoute (str "<sip:p1.example.com;lr>,<sips:alice:p%40w@example.com:5070;transport=tls;lr?subject=a%20b&x=>;x=%20y")
+    = some [exampleRoute1, exampleRoute2] := by decide +kernel
+
+/-- Domain of a From / To value. Either the name-addr form `display<uri>;params`, or the bare
+addr-spec form `uri;params`; in the latter the URI text must contain neither ';' (it would start
+the header parameters: a bare SIP URI therefore has no URI parameters) nor '<', and the header
+parameters no '<'. -/
+inductive FromToDom : FromTo → Prop
+  | nameAddr (na : NameAddr) (ps : List KeyValue) (hna : NameAddrDom na) (hps : ∀ p ∈ ps, GenParamOK p) :
+      FromToDom { nameAddr := some na, addrSpec := none, params := ps }
+  | addrSpec (a : AddrSpec) (ps : List KeyValue) (ha : AddrDom a)
+      (htext : (59 : UInt8) ∉ a.encode ∧ (60 : UInt8) ∉ a.encode)
+      (hps : ∀ p ∈ ps, GenParamOK p ∧ (60 : UInt8) ∉ p.key ∧ (60 : UInt8) ∉ p.value) :
+      FromToDom { nameAddr := none, addrSpec := some a, params := ps }
+
+theorem C14_from_to (f : FromTo) (h : FromToDom f) : parseFromTo f.encode = some f := by
+  cases h with
+  | nameAddr na ps hna hps =>
+    simp only [FromTo.encode]
+    exact parseFromTo_nameaddr_text na ps (C14_name_addr na hna) (hna.display.get 60)
+      (hna.display.get 62) hna.addr_text (GenParamOK.lemma_form hps)
+  | addrSpec a ps ha htext hps =>
+    simp only [FromTo.encode]
+    exact parseFromTo_addrspec_text a ps (C14_addr_spec a ha) htext.2 htext.1
+      (GenParamOK.lemma_form (fun p hp => (hps p hp).1)) (fun p hp => (hps p hp).2)
+
+theorem C14_from_to_reencode (f : FromTo) (h : FromToDom f) :
+    (parseFromTo f.encode).map FromTo.encode = some f.encode := by rw [C14_from_to f h]; rfl
+
+/-- `tag`: the value of the first `tag` parameter, nothing when there is none; the address is the
+one written (whichever form). -/
+theorem C14_from_to_tag (f : FromTo) (pre post : List KeyValue) (v : Bytes)
+    (hp : f.params = pre ++ { key := str "tag", value := v } :: post)
+    (hpre : ∀ q ∈ pre, q.key ≠ str "tag") : f.getTag = some v := by
+  unfold FromTo.getTag; rw [hp]; exact getParam_first pre post _ v hpre
+
+theorem C14_from_to_tag_absent (f : FromTo) (h : ∀ q ∈ f.params, q.key ≠ str "tag") :
+    f.getTag = none := getParam_none f.params _ h
+
+theorem C14_from_to_extracts (f : FromTo) (h : FromToDom f) :
+    ∃ d, parseFromTo f.encode = some d ∧ d.getTag = f.getTag ∧ d.getAddrSpec = f.getAddrSpec ∧
+      d.params = f.params :=
+  ⟨f, C14_from_to f h, rfl, rfl, rfl⟩
+
+/-- non-vacuity: `"Alice %22A%22" <sips:alice:…>;tag=a%3Bb;x` and `tel:+1-201-555-0123;tag=77` -/
+example : FromToDom { nameAddr := some { display := str "\"Alice %22A%22\" ", addr := .sip exampleUri },
+                      addrSpec := none, params := [⟨str "tag", str "a%3Bb"⟩, ⟨str "x", []⟩] } := by
+  refine .nameAddr _ _ ⟨by decide +kernel, ?_, by decide +kernel⟩ (by decide +kernel)
+  exact (by constructor <;> decide +kernel : UriDom exampleUri)
+example : FromToDom { nameAddr := none, addrSpec := some (.abs (str "tel:+1-201-555-0123")),
+                      params := [⟨str "tag", str "77"⟩] } := by
+  refine .addrSpec _ _ ?_ (by decide +kernel) (by decide +kernel)
+  show hasPrefix sipPrefix _ = false ∧ hasPrefix sipsPrefix _ = false
+  decide +kernel
+example : (parseFromTo (str "Bob <sip:bob@b.example:5062>;tag=a%3Bb;tag=2")).map
+    (fun d => (d.getTag, d.getAddrSpec.bind AddrSpec.sipURI? |>.map (fun u => (u.user, u.host, u.port))))
+    = some (some (str "a%3Bb"), some (str "bob", str "b.example", 5062)) := by decide +kernel
+
+example : (⟨none, none, [⟨str "x", []⟩, ⟨str "tag", str "a%3Bb"⟩, ⟨str "tag", str "2"⟩]⟩ : FromTo).getTag
+    = some (str "a%3Bb") :=
+  C14_from_to_tag _ [⟨str "x", []⟩] [⟨str "tag", str "2"⟩] (str "a%3Bb") rfl (by decide +kernel)
+example : (⟨none, none, [⟨str "x", []⟩]⟩ : FromTo).getTag = none :=
+  C14_from_to_tag_absent _ (by decide +kernel)
+
+/-- Domain of a CSeq value: the number Go prints and re-reads (int32 range is what SIP allows),
+the method one non-empty word without white space. -/
+structure CSeqDom (c : CSeq) : Prop where
+  seq : 0 ≤ c.seq ∧ c.seq ≤ 2147483647
+  method : c.method ≠ [] ∧ Plain c.method
+
+theorem C14_cseq (c : CSeq) (h : CSeqDom c) : parseCSeq c.encode = some c := by
+  unfold parseCSeq CSeq.encode
+  rw [fields_two (itoa c.seq) c.method (plain_itoa h.seq.1) h.method.2 (itoa_ne_nil h.seq.1) h.method.1]
+  simp only [atoi_itoa h.seq.1 (by have := h.seq.2; omega), Option.map_some]
+
+theorem C14_cseq_reencode (c : CSeq) (h : CSeqDom c) :
+    (parseCSeq c.encode).map CSeq.encode = some c.encode := by rw [C14_cseq c h]; rfl
+
+example : CSeqDom { seq := 2147483647, method := str "INVITE" } := by constructor <;> decide +kernel
+example : parseCSeq (str "314159 INVITE") = some { seq := 314159, method := str "INVITE" } := by
+  decide +kernel
+
+/-! ## outside the domains: what the code normalises
+
+Kernel-checked facts about texts no value of the domains above produces. None contradicts the
+theorems; they delimit them (and are the places where a forwarded header can differ from the
+received one). -/
+
+/-- a port that is not a number is dropped (the Atoi error is ignored) -/
+example : (parseSipURI (str "sip:h.example:abc")).map SIPURI.encode = some (str "sip:h.example") := by
+  decide +kernel
+/-- a signed port loses its sign -/
+example : (parseSipURI (str "sip:h.example:+5")).map SIPURI.encode = some (str "sip:h.example:5") := by
+  decide +kernel
+/-- an empty user-info loses its '@'; a password without user disappears -/
+example : (parseSipURI (str "sip:@h.example")).map SIPURI.encode = some (str "sip:h.example") ∧
+    (parseSipURI (str "sip::pw@h.example")).map SIPURI.encode = some (str "sip:h.example") := by
+  decide +kernel
+/-- an IPv6 reference as host is cut at its first ':' and the rest is lost (URI); a Via element with
+one is rejected outright (three ':'-pieces) -/
+example : (parseSipURI (str "sip:[2001:db8::1]:5060")).map SIPURI.encode = some (str "sip:[2001") ∧
+    parseViaParam (str "SIP/2.0/UDP [2001:db8::1]:5060") = none := by
+  decide +kernel
+/-- `;x=` becomes `;x` (`C14_kv_reencode_any`) -/
+example : (parseSipURI (str "sip:h.example;x=")).map SIPURI.encode = some (str "sip:h.example;x") := by
+  decide +kernel
+/-- the URI header list is cut at the first piece without '=' -/
+example : (parseSipURI (str "sip:h.example?a=1&b&c=3")).map SIPURI.encode
+    = some (str "sip:h.example?a=1") := by decide +kernel
+/-- several blanks between sent-protocol and sent-by become one -/
+example : (parseViaParam (str "SIP/2.0/UDP  \th.example")).map ViaParam.encode
+    = some (str "SIP/2.0/UDP h.example") := by decide +kernel
 
 end Props.C14
